@@ -192,6 +192,11 @@ def time_respecting_paths(G, u, v=None, start=None, end=None, sample=1):
                     v = "_".join(v[0:-1])
 
                 pt.append((n_type(u), n_type(v), t_type(t)))
+
+            if len(pt) == 0:
+                # a source that is also a target: the trivial path has no hop
+                continue
+
             # check ping pong
 
             flag = True
